@@ -15,7 +15,7 @@ def run(ctx):
                 "positions compared with the Lean operational model. non-trivial = >= 2 chunks or a skip")
     # (a) determinism / history independence
     cases = []
-    for _ in range(25 if ctx.quick else 300):
+    for _ in range(60 if ctx.quick else 500):
         dt = rng.choice(S.ALL_DT)
         cfg = (rng.choice([0, 4, 8, 12]), rng.choice([0, 0, 1, 3]), rng.below(2))
         xs = G.gen_seq(rng, dt, rng.choice([1, 5, 50, 300, 1200]))[0]
@@ -54,7 +54,7 @@ def run(ctx):
         if mt.get("same") != "1" or mt2.get("same") != "1":
             ctx.violation("a chunk's bytes differ between threads", lines[5 * i + 4], "same=1", a[4][:200])
     # (b) sub-sequences, (c) skipping
-    files = [f for f in D.make_files(ctx, 25 if ctx.quick else 200) if f.get("chunks") and len(f["chunks"]) >= 2]
+    files = [f for f in D.make_files(ctx, 60 if ctx.quick else 300) if f.get("chunks") and len(f["chunks"]) >= 2]
     sub_lines, sub_info, skip_lines, skip_info = [], [], [], []
     for f in files:
         raw = f["hex"]
